@@ -463,8 +463,18 @@ impl<'a> GExec<'a> {
         let g = gw as usize % self.ngw();
         let env = self.env().clone();
         let s_i = 4 + (sender as usize % 4);
-        let s_addr = self.principals[s_i].clone();
         let gaddr = self.gws[g].addr.clone();
+        // sender 200 / 201: the gateway's own address / the example contract's address named
+        // as sender by an outside caller (nobody can authorise for them from outside)
+        let contract_sender: Option<Address> = match sender {
+            200 => Some(gaddr.clone()),
+            201 => Some(self.gws[g].example.clone()),
+            _ => None,
+        };
+        let s_addr = contract_sender.clone().unwrap_or_else(|| self.principals[s_i].clone());
+        if contract_sender.is_some() {
+            ctx.count("probe.contract_address_named_as_sender_from_outside");
+        }
         let pl = payload.resolve();
         let (c, a) = (chain.resolve(), addr.resolve());
         let args: SVec<Val> = (
@@ -495,7 +505,7 @@ impl<'a> GExec<'a> {
                 who: self.principals[w].clone(),
                 root: AuthNode::new(&gaddr, "call_contract", aa),
             });
-            ok = w == s_i && !other_args;
+            ok = w == s_i && !other_args && contract_sender.is_none();
         }
         if auth.is_fault() {
             ctx.count(&format!("F7.call_contract.{}", auth.name()));
